@@ -1,3 +1,3 @@
 import CobaVerif.Driver.Loop
--- stub: replaced when the C13 model exists
-def main : IO Unit := Coba.J.runLoop (fun _ => .error "C13 driver not implemented")
+import CobaVerif.Driver.C13
+def main : IO Unit := Coba.J.runLoop Coba.C13.Driver.handle
